@@ -529,6 +529,8 @@ fn run_c16(ctx: &Ctx) {
                                             }
                                             dest.push(lv);
                                         }
+                                        // a sequence that builds the address without a literal (movw/movt, direct branch)
+                                        (arm32::End::Arrived { addr, thumb: th }, None) => dest.push(*addr | *th as u32),
                                         (arm32::End::Unknown { .. }, _) => b.unknown += 1,
                                         _ => b.fail("boolean-entry-does-not-branch", J::new()),
                                     }
